@@ -5,6 +5,7 @@
 //! @encodes http_forwarded_stream::ForwardedStreamSink::on_encoded_chunk_prefix
 //! @encodes http_forwarded_stream::ForwardedStreamSink::on_encoded_chunk_suffix
 //! @encodes http_forwarded_stream::ForwardedStreamSink::wait_writable
+//! @encodes http_forwarded_stream::ForwardedStreamSource::consume
 //! @cut K1
 //! @assume the client-side sink is a mock that accepts a symbolic prefix (0..=offered) of every write and records the bytes it accepted, eof() and wait_writable() calls; it lives in the harness's stack frame and deallocation is a no-op
 //! @assume chunk shapes (bytes offered per write, remaining chunk size, bytes already buffered) are concrete per instance; byte contents and the accepted amounts are symbolic
@@ -335,6 +336,39 @@ fn chunk_prefix<const B: usize, const N: usize, const T: usize>() {
  "encodes": ["http_forwarded_stream::ForwardedStreamSink::on_encoded_chunk_prefix", "httparse::parse_chunk_size (third-party, executed for real)"],
  "quick": "[(0,1,1),(0,3,3),(0,5,5),(1,2,3),(2,3,5),(3,1,4)]", "thorough": "[(0,2,2),(0,4,4),(1,1,2),(1,4,5),(2,1,3),(2,2,4),(4,1,5)]"}
 @*/
+
+// ---------------------------------------------------------------------------------------------
+// request side: flow-control credit.  The serialized request head is framing added by the endpoint and must not be
+// credited to the client's receive window; body bytes must be credited exactly.
+// ---------------------------------------------------------------------------------------------
+// @harness tier=quick core=yes bound="every pending head-byte count and every consume size (usize); body state and done state"
+// @desc consume(n) returns to the client's window exactly the part of n that is body: the first skip_consume_bytes bytes consumed are the serialized head and are not credited
+// @encodes http_forwarded_stream::ForwardedStreamSource::consume
+#[kani::proof]
+#[kani::unwind(4)]
+#[kani::stub(<std::alloc::Global as std::alloc::Allocator>::deallocate, crate::verif_env::global_dealloc_noop)]
+fn c17_request_credit_excludes_head_bytes() {
+    use crate::verif_env::script_source::{self, ScriptSource};
+    let skip: usize = kani::any();
+    let n: usize = kani::any();
+    let in_body: bool = kani::any();
+    script_source::reset();
+    let mut src = ManuallyDrop::new(ScriptSource { chunks: [b"", b""], idx: 0 });
+    let state = if in_body {
+        SourceState::TransferringBody(SourceTransferringBody { source: stack_box::<ScriptSource>(&mut src), body_length: BodyLength::Chunked, sent_bytes: 0 })
+    } else {
+        SourceState::Done
+    };
+    let mut s = ManuallyDrop::new(ForwardedStreamSource { state, skip_consume_bytes: skip, id: log_utils::IdChain::empty() });
+    let r = pipe::Source::consume(&mut *s, n);
+    assert!(r.is_ok(), "C17.credit.err");
+    let head_part = if skip < n { skip } else { n };
+    assert!(s.skip_consume_bytes == skip - head_part, "C17.credit.head_left: head bytes still to be skipped miscounted");
+    let want = if in_body { n - head_part } else { 0 };
+    assert!(script_source::consumed() == want, "C17.credit.body: the credit returned to the client's window is not exactly the body bytes forwarded");
+    kani::cover!(in_body && skip > 0 && n > skip, "C17.cover.credit_head_and_body");
+    kani::cover!(n <= skip, "C17.cover.credit_head_only");
+}
 
 /// wait_writable per state: immediate when the previous write only stopped at a framing boundary, delegated to the
 /// client-side sink inside a body, an error only where no response is in progress.
